@@ -1770,3 +1770,52 @@ Proof.
   destruct (F t Ht) as (_ & _ & _ & _ & h5 & _). split; [auto|].
   destruct (inv_conn _ I t Ht) as (k & Ek & Hk). destruct (Hk U). eauto.
 Qed.
+
+(* ---------------------------------------------------------------------------------------------- *)
+(* 13. one wrapper, several tasks                                                                   *)
+
+Lemma wmem_add t u l : wmem t (wadd u l) = (t =? u) || wmem t l.
+Proof.
+  unfold wadd. destruct (wmem u l) eqn:M.
+  - destruct (t =? u) eqn:E; auto. apply Nat.eqb_eq in E. subst. exact M.
+  - unfold wmem. rewrite existsb_app. cbn. rewrite orb_false_r. apply orb_comm.
+Qed.
+
+Lemma wmem_discard t u l : wmem t (wdiscard u l) = negb (t =? u) && wmem t l.
+Proof.
+  unfold wmem, wdiscard. induction l as [|x r IH]; cbn; [rewrite andb_false_r; reflexivity|].
+  destruct (x =? u) eqn:E; cbn.
+  - apply Nat.eqb_eq in E. subst. rewrite IH. destruct (t =? u) eqn:F; cbn; auto.
+  - rewrite IH. destruct (t =? x) eqn:F; cbn.
+    + apply Nat.eqb_eq in F. subst. rewrite E. reflexivity.
+    + reflexivity.
+Qed.
+
+Lemma wrapper_inv t ops : forall w st,
+  werror w = fst st -> wmem t (wtasks w) = snd st ->
+  werror (fold_left wstep ops w) = fst (fold_left (wspec_step t) ops st) /\
+  wmem t (wtasks (fold_left wstep ops w)) = snd (fold_left (wspec_step t) ops st).
+Proof.
+  induction ops as [|o r IH]; intros w [err ins] E M; cbn in *; auto.
+  apply IH; destruct o as [u|u|]; cbn; subst; try destruct (werror w) eqn:W; cbn;
+    repeat match goal with
+           | |- context [existsb (Nat.eqb t) ?l] => change (existsb (Nat.eqb t) l) with (wmem t l)
+           end;
+    rewrite ?wmem_add, ?wmem_discard; try rewrite (Nat.eqb_sym t u); try destruct (u =? t); cbn;
+    rewrite ?orb_false_r, ?orb_true_r; auto.
+Qed.
+
+(* membership in the wrapper's task set is, for every task, exactly "inside its own with-block" -- it does
+   not depend on the order in which OTHER tasks enter and leave (no LIFO discipline is assumed) *)
+Theorem wrapper_members_exact ops t : wmem t (wtasks (wrun ops)) = wspec t ops.
+Proof. unfold wrun, wspec. apply (wrapper_inv t ops (mkWrap [] false [] []) (false, false)); reflexivity. Qed.
+
+(* hence Wrapper.cancel reaches exactly the tasks that are inside a with-block at that moment *)
+Theorem wrapper_cancel_reaches ops t :
+  wmem t (wcancelled (wrun (ops ++ [WCancel]))) = wmem t (wcancelled (wrun ops)) || wspec t ops.
+Proof.
+  unfold wrun. rewrite fold_left_app. cbn. unfold wmem at 1. rewrite existsb_app.
+  fold (wmem t (wcancelled (fold_left wstep ops (mkWrap [] false [] [])))).
+  fold (wmem t (wtasks (fold_left wstep ops (mkWrap [] false [] [])))).
+  f_equal. apply wrapper_members_exact.
+Qed.
